@@ -104,7 +104,23 @@ ProgAliasItem ==
     cx \in { [k |-> "no"], [k |-> "co", ty |-> Bare("R"), val |-> CRef("R", "I")], [k |-> "co", ty |-> Bare("E"), val |-> CRef("E", "I")],
              [k |-> "co", ty |-> Bare("R"), val |-> CRef("E", "I")] } }
 
+\* ---- family "lists": list types and list constants across two files that both define an enum E.  A constant of type
+\*      list<E> written as a reference to the other file's list<E> constant has to be cast item by item: the two E differ
+ProgLists ==
+  { [inc |-> [a |-> {"b"}, b |-> {}],
+     ty |-> (Key("a", "E") :> ae) @@ (Key("b", "E") :> [k |-> "en"]) @@ (Key("a", "L") :> al) @@ (Key("a", "S") :> as),
+     co |-> (Key("b", "x") :> [k |-> "co", ty |-> ListRef("", "E"), val |-> CList(CRef("E", "I"))]) @@ (Key("a", "x") :> ax) @@ (Key("a", "y") :> ay),
+     sv |-> EmptySv] :
+    ae \in { [k |-> "no"], [k |-> "en"] },
+    al \in { [k |-> "no"], [k |-> "td", tgt |-> ListRef("", "E")], [k |-> "td", tgt |-> ListRef("b", "E")] },
+    as \in { [k |-> "no"], [k |-> "st", fty |-> ListRef("", "E"), dfl |-> CRef("b", "x")] },
+    ax \in { [k |-> "co", ty |-> ListRef("", "E"), val |-> CRef("b", "x")], [k |-> "co", ty |-> ListRef("b", "E"), val |-> CRef("b", "x")],
+             [k |-> "co", ty |-> Bare("L"), val |-> CRef("b", "x")], [k |-> "co", ty |-> ListRef("", "E"), val |-> CList(CRef("E", "I"))],
+             [k |-> "co", ty |-> ListRef("base", "i32"), val |-> CList(CInt)], [k |-> "co", ty |-> ListRef("base", "i32"), val |-> CRef("b", "x")] },
+    ay \in { [k |-> "no"], [k |-> "co", ty |-> ListRef("", "E"), val |-> CRef("", "x")] } }
+
 Programs == CASE Family = "types"   -> ProgTypes
+              [] Family = "lists"   -> ProgLists
               [] Family = "aliasitem" -> ProgAliasItem
               [] Family = "dotted"  -> ProgDotted
               [] Family = "modsvcs" -> ProgModSvcs
@@ -166,5 +182,5 @@ ParentsFinite == (Done /\ ~Bad(st)) =>
 OutcomeCorrect == (Done /\ ~st.hz) => ((~Bad(st)) <=> D.ok)
 \* every typedef reports its ultimate non-typedef target
 RootsCorrect == (Done /\ ~Bad(st) /\ ~st.hz) =>
-   \A k \in DOMAIN D.roots : ModOf(k) \in Loaded(prog) => ProjRoot(RootOf(prog, st, HEnt(k))) = D.roots[k]
+   \A k \in DOMAIN D.roots : ModOf(k) \in Loaded(prog) => ProjRootS(prog, st, RootOf(prog, st, HEnt(k))) = D.roots[k]
 =============================================================================
